@@ -81,3 +81,7 @@ Definition g_cast_old (x : xval) : out :=
 
 (* G8b: date(y, m, d) *)
 Definition g_date3 (a : Z * Z * Z) : out := let '(y, m, d) := a in ov [cast_date3 y m d].
+
+(* G9: parse_date(s, '%Y-%m-%d') (strptime; ValueError is not caught there) and parse_date(s) on ISO dates *)
+Definition g_pdate (s : list Z) : out :=
+  ov [match parse_date s with VDate o => VDate o | _ => VErr 1 end].
